@@ -77,7 +77,7 @@ func c01GoContext(i int) pongo2.Context {
 			return p.Name
 		}, "fmap": func(m map[string]int) int { return len(m) }, "fsl": func(x []int) int { return len(x) }, "ffn": func(f func() string) bool { return f == nil },
 		"fany": func(x any) bool { return x == nil }, "fvar": func(ps ...*c01Unexported) int { return len(ps) }, "fstr": func(x fmt.Stringer) bool { return x == nil }, "ferr": func(e error) bool { return e == nil },
-		"nils": []int(nil), "nilfunc": (func() string)(nil),
+		"nils": []int(nil), "nilfunc": (func() string)(nil), "fstrs": func(xs ...fmt.Stringer) int { return len(xs) },
 		"uurl": "http://пример-длинного-доменного-имени-для-проверки.рф/страница", "wurl": "www." + strings.Repeat("例", 40) + ".de x@y.de", "emo": "😀 héllo wörld 😀😀 naïve",
 	}
 	switch i % 8 {
@@ -138,6 +138,7 @@ var c01Exprs = []string{"-s1", "n1 / z", "n1 % z", "f1 / 0.0", "n1 ^ n2", "big ^
 	"nilval().x()", "nilfn()(1)", "st.NilValue.Name", "st.NilValue.x.y", "m.zz.Name", "lst.9.Name", "nil1.Name.x", "nilfn() in lst", "nilfn() == nil1",
 	"npst", "nptm", "npun", "npmap", "nperr", "holder.S", "holder.T", "holder.U", "holder.I", "holder.E", "npst|upper", "nptm|date:\"2006\"", "npun.Name", "npun.Hello(1)", "npst|length", "npst == npst",
 	"npst in lst", "holder.T|default:\"d\"", "npst|default_if_none:\"n\"", "npst|safe", "npst|escape", "npst + 1", "not npst", "nptm|time:\"15\"", "nptm < nptm", "npst|stringformat:\"%v\"",
+	"fstr(n1)", "fstr(s1)", "fstr(st)", "fstr(lst)", "ferr(n1)", "ferr(s1)", "ferr(st)", "fstrs(npst, n1)", "fstrs(s1)", "fstrs()", "fany(n1)", "fany(st)",
 	"fptr(npun)", "fptr(up)", "fptr(nil1)", "fptr(npst)", "fptr(holder.U)", "fmap(nilm)", "fmap(npmap)", "fmap(nil1)", "fsl(nils)", "fsl(nil1)", "fsl(npun)", "ffn(nilfunc)", "ffn(nil1)", "fany(npun)", "fany(nil1)", "fany(nilm)",
 	"fvar(npun, up, npun)", "fvar(nil1)", "fvar()", "fstr(npst)", "fstr(nil1)", "fstr(holder.I)", "ferr(nperr)", "ferr(holder.E)", "ferr(npun)", "st.ValArg(npun)", "st.Hello(npun)", "st.Var(nil1)", "fptr(nilst())", "fptr(nilfn())",
 	"not (lst in ifm)", "up == up", "pm == pm", "sk == sk", "am == am", "ifm == ifm", "up in nil1", "nil1 in nil1"}
@@ -189,7 +190,8 @@ func runC01(r *run) {
 			src += "{{ " + g.rg.pick([]string{"s1", "n1", "f1", "lst", "nil1", "st", "m", "b1"}) + "|" + f + param + " }}"
 			src += "{{ " + c01Paths[rg.intn(len(c01Paths))] + " }}{% if " + c01Paths[rg.intn(len(c01Paths))] + " %}t{% endif %}{{ " + c01Paths[rg.intn(len(c01Paths))] + "|length }}"
 			src += "{{ " + c01Exprs[rg.intn(len(c01Exprs))] + " }}"
-			src += rg.pick([]string{"", "{% lorem 3 w %}", "{% lorem 2 p random %}", "{% lorem 999999999 %}", "{% lorem 99999999999999999999 %}", "{% lorem 9223372036854775808 w %}", "{% lorem 18446744073709551616 p %}", "{% lorem -1 %}",
+			src += rg.pick([]string{"", "{% lorem 3 w %}", "{% lorem 2 p random %}", "{% lorem 999999999 %}", "{% lorem 99999999999999999999 %}", "{% cycle zx as zx %}{% cycle zx %}", "{% for q in nums %}{% cycle zy as zy %}{% endfor %}", "{% cycle s1 zc as zc %}{% cycle zc %}{% cycle zc %}{{ zc }}",
+				"{% cycle \"a\" as za %}{% cycle za \"b\" as zb %}{% cycle zb %}{% cycle zb za as za %}{% cycle za %}{{ za }}{{ zb }}", "{% lorem 9223372036854775808 w %}", "{% lorem 18446744073709551616 p %}", "{% lorem -1 %}",
 				"{% lorem 9223372036854775807 b %}", "{% widthratio 99999999999999999999 2 3 %}", "{% widthratio 1 99999999999999999999 99999999999999999999 %}", "{% cycle 99999999999999999999 1e999 %}", "{{ s1|center:99999999999999999999 }}",
 				"{{ s1|truncatechars:99999999999999999999 }}", "{{ lst|slice:\"99999999999999999999:\" }}", "{{ 99999999999999999999|get_digit:99999999999999999999 }}", "{{ s1|wordwrap:99999999999999999999 }}", "{{ f1|floatformat:99999999999999999999 }}", "{% now \"2006-01-02\" fake %}", "{% ssi \"inc.tpl\" %}", "{% import \"lib.tpl\" mm %}{{ mm(lst) }}",
 				"{% for a, b in mm %}{{ a }}{% endfor %}", "{{ s1|center:99999 }}", "{{ f1|floatformat:1001 }}", "{{ s1|truncatechars_html:3 }}", "{{ \"<b>x y</b> <\"|truncatewords_html:2 }}", "{{ s1|stringformat:\"%d %s %v\" }}",
